@@ -112,6 +112,8 @@ impl GenCfg {
             "gcgraph" => GenCfg { sparse: true, exec: true, max_funcs: 14, body_budget: 25, export_all: false, feats: Feats { relaxed: false, ..Feats::all() }, ..base },
             "names" => GenCfg { names: true, max_funcs: 8, body_budget: 30, ..base },
             "customs" => GenCfg { customs: true, names: true, producers: true, max_funcs: 4, body_budget: 15, ..base },
+            // unknown customs plus hand-placed sections under the interpreted names with unusual payloads
+            "oddknown" => GenCfg { customs: true, max_funcs: 3, body_budget: 12, ..base },
             "manyfuncs" => GenCfg { max_funcs: 160, body_budget: 18, ..base },
             "tiny" => GenCfg { max_funcs: 3, body_budget: 12, ..base },
             n if n.starts_with("feature-") => GenCfg { feats: Feats::only(&n[8..]), ..base },
@@ -1004,7 +1006,10 @@ pub fn generate(cfg: &GenCfg, rng: &mut Rng) -> MSpec {
     let nif = rng.below(if cfg.sparse { 5 } else { 3 });
     for i in 0..nif {
         let t = rng.below(m.types.len() as u64) as u32;
-        m.imports.push(Import { module: "env".into(), field: format!("fn{}", i), kind: ImportKind::Func(t) });
+        // now and then the same (module, field) pair is imported twice (valid; linkers produce it for one symbol
+        // used at two signatures or simply twice)
+        let field = if i > 0 && rng.chance(1, 4) { format!("fn{}", rng.below(i)) } else { format!("fn{}", i) };
+        m.imports.push(Import { module: "env".into(), field, kind: ImportKind::Func(t) });
     }
     let mut n_mem_total = if f.multimem { rng.below(4) } else { rng.below(2) + rng.below(2) }.min(if f.multimem { 3 } else { 1 }) as usize;
     if cfg.exec && n_mem_total == 0 && rng.chance(3, 4) {
@@ -1318,8 +1323,45 @@ pub fn generate(cfg: &GenCfg, rng: &mut Rng) -> MSpec {
     }
     if cfg.customs {
         gen_customs(&mut m, rng);
+        if !cfg.names && !cfg.producers {
+            gen_odd_known_customs(&mut m, rng);
+        }
     }
     m
+}
+
+/// Sections under the names walrus interprets whose payload is unusual: still a valid module (the content of
+/// custom sections is not subject to validation); walrus documents that it warns and carries on.
+pub fn gen_odd_known_customs(m: &mut MSpec, rng: &mut Rng) {
+    let places = [0u8, 1, 5, 10, 11, 12, 254, 255];
+    let junk = |rng: &mut Rng, n: u64| -> Vec<u8> { (0..rng.below(n)).map(|_| rng.next() as u8).collect() };
+    if rng.chance(2, 3) {
+        let data = match rng.below(7) {
+            0 => vec![],                                    // no field count at all
+            1 => vec![0x80],                                // field count cut off inside its LEB
+            2 => vec![0x05],                                // five fields announced, none follows
+            3 => vec![0x00],                                // zero fields
+            4 => vec![0x01, 0x08, b'l', b'a', b'n', b'g', b'u', b'a', b'g', b'e', 0x01, 0x01, b'C'], // value without version
+            5 => vec![0x01, 0x03, b'f', b'o', b'o', 0x00],  // unknown field name
+            _ => junk(rng, 24),
+        };
+        m.customs.push(CustomSpec { name: "producers".into(), data, before: *rng.pick(&places) });
+    }
+    if rng.chance(2, 3) {
+        let data = match rng.below(7) {
+            0 => vec![],
+            1 => vec![0x01],                                // subsection id without a size
+            2 => vec![0x01, 0x80],                          // size cut off
+            3 => vec![0x00, 0x05, b'a'],                    // size past the end
+            4 => vec![0x01, 0x03, 0x01, 0x63, 0x00],        // function index 99 named ""
+            5 => vec![0x02, 0x04, 0x01, 0x63, 0x01, 0x00],  // locals of function 99: cut off
+            _ => junk(rng, 24),
+        };
+        m.customs.push(CustomSpec { name: "name".into(), data, before: *rng.pick(&places) });
+    }
+    if rng.chance(1, 3) {
+        m.customs.push(CustomSpec { name: "target_features".into(), data: junk(rng, 12), before: *rng.pick(&places) });
+    }
 }
 
 impl MSpec {
